@@ -85,6 +85,11 @@ def workloadEntries : List (String × List String) := [
           ["Insert", "ChangeKey", "DeleteIndex", "Delete", "Size", "ContainsIndex"].map fun m => "heap." ++ t ++ "." ++ m)),
   ("lexer-input",
     ["lexer/input.New", "lexer/input.Input.Next", "lexer/input.Input.Lexeme", "lexer/input.Input.Retract"]),
+  ("graphs-dot",
+    ["graph.NewUndirected", "graph.NewDirected", "graph.Undirected.AddEdge", "graph.Directed.AddEdge",
+     "graph.Undirected.DOT", "graph.Directed.DOT", "graph.Directed.Reverse", "graph.Undirected.ConnectedComponents",
+     "graph.Directed.StronglyConnectedComponents", "graph.Directed.Topological", "heap.binomial.DOT",
+     "heap.fibonacci.DOT", "automata.NFA.DOT", "automata.DFA.DOT"]),
   ("structures",
     ["sort.Quick", "sort.Quick3Way", "sort.Merge", "sort.Heap", "sort.Shell", "sort.Insertion", "sort.Select",
      "radixsort.LSDInt", "radixsort.MSDInt", "radixsort.Quick3WayString", "radixsort.MSDString",
@@ -97,7 +102,7 @@ def workloadEntries : List (String × List String) := [
 def mixedWorkloads : List String :=
   ["hashtable-iterate", "lr-slr", "set-iterate", "automata-determinize", "first-follow", "lr-lalr",
    "grammar-transform", "ll1-table", "lr-canonical", "structures", "hash-api", "ordered-tables", "tries", "heaps",
-   "lexer-input"]
+   "lexer-input", "graphs-dot"]
 
 def entriesOf (w : String) : Option (List String) :=
   if w = "mixed" then
